@@ -190,10 +190,13 @@ def job_angles(tier, rng):
             R = lie.angle_to_so3(a, b, g)
             a2, b2, g2 = lie.so3_to_angle(R)
             ok = _so3_close(lie.angle_to_so3(a2, b2, g2), R) and np.isfinite([a2, b2, g2]).all()
-            U = lie.angle_to_su2(a, b, g)
-            a3, b3, g3 = lie.su2_to_angle(U)
-            U2 = lie.angle_to_su2(a3, b3, g3)
-            ok = ok and (np.abs(U2 - U).max() < 1e-7 or np.abs(U2 + U).max() < 1e-7)
+            for gg in (g, g + 2 * np.pi):           # gamma over (0, 4 pi): both sheets of the double cover
+                U = lie.angle_to_su2(a, b, gg)
+                a3, b3, g3 = lie.su2_to_angle(U)
+                U2 = lie.angle_to_su2(a3, b3, g3)
+                # the documented range gamma in (0,4pi) makes the round trip exact, sign included, wherever the sheet is determined by U[0,0];
+                # at beta = pi exactly the property only claims "up to the documented sign" (the sign there is pinned down by the representation clause below)
+                ok = ok and (np.abs(U2 - U).max() < 1e-7 or (abs(np.cos(b / 2)) < 1e-6 and np.abs(U2 + U).max() < 1e-7))
             U3 = lie.so3_to_su2(R)
             ok = ok and _so3_close(lie.su2_to_so3(U3), R)
         except Exception as ex:
@@ -203,8 +206,14 @@ def job_angles(tier, rng):
         chk(ok, what='round trip', alpha=float(a), beta=float(b), gamma=float(g))
     # batches mixing generic and degenerate rotations: element-wise
     P = np.array(pts)
-    for trial in range(20):
-        idx = rng.choice(len(P), size=5, replace=False)
+    i0 = np.nonzero(P[:, 1] == 0.0)[0]; ipi = np.nonzero(P[:, 1] == np.pi)[0]; ig = np.nonzero((P[:, 1] != 0.0) & (P[:, 1] != np.pi))[0]
+    for trial in range(60):
+        if trial < 20:
+            idx = rng.choice(len(P), size=5, replace=False)
+        elif trial < 50:        # by construction: both poles and generic rotations in ONE batch, in random order
+            idx = rng.permutation(np.concatenate([rng.choice(i0, 1 + trial % 2), rng.choice(ipi, 1 + (trial // 2) % 2), rng.choice(ig, 5 - (1 + trial % 2) - (1 + (trial // 2) % 2))]))
+        else:                   # only poles
+            idx = rng.permutation(np.concatenate([rng.choice(i0, 2), rng.choice(ipi, 3)]))
         a, b, g = P[idx, 0], P[idx, 1], P[idx, 2]
         try:
             R = lie.angle_to_so3(a, b, g)
@@ -216,7 +225,7 @@ def job_angles(tier, rng):
             U = lie.angle_to_su2(a, b, g)
             au, bu, gu = lie.su2_to_angle(U)
             U2 = lie.angle_to_su2(au, bu, gu)
-            ok = ok and all(min(np.abs(U2[k] - U[k]).max(), np.abs(U2[k] + U[k]).max()) < 1e-7 for k in range(5))
+            ok = ok and all(np.abs(U2[k] - U[k]).max() < 1e-7 or (abs(np.cos(b[k] / 2)) < 1e-6 and np.abs(U2[k] + U[k]).max() < 1e-7) for k in range(5))
             R2 = lie.angle_to_so3(a.reshape(5, 1), b.reshape(5, 1), g.reshape(5, 1))
             ok = ok and R2.shape == (5, 1, 3, 3) and _so3_close(R2[:, 0], R)
         except Exception as ex:
@@ -247,6 +256,27 @@ def job_irrep(tier, rng):
             cnt += 1
             if not ok and bad is None:
                 bad = dict(j2=j2, trial=t)
+    G = _grid()
+    sel = [G[k] for k in rng.choice(len(G), size=40 if tier == 'quick' else 200, replace=False)] + [(0.0, 0.0, 4.5), (0.0, 0.0, 7.0), (1.0, np.pi, 0.3), (4.5, 0.0, 5.9 + 2 * np.pi)]
+    for j2 in range(0, 11):
+        for (a, b, g) in sel:
+            for gg in (g, g + 2 * np.pi):
+                try:
+                    U = lie.angle_to_su2(a, b, gg)
+                    Dm = lie.get_su2_irrep(j2, U)                      # matrix input (goes through su2_to_angle)
+                    Da = lie.get_su2_irrep(j2, a, b, gg)               # angle input (unitarity / j2=1 form proved)
+                    ok = np.abs(Dm - Da).max() < 1e-5      # the arccos extraction loses half the digits when alpha or gamma is a multiple of pi (error ~1e-8 * j); a wrong sheet gives an error of order 1
+                    V = lie.angle_to_su2(*sel[(j2 * 7 + 3) % len(sel)])
+                    ok = ok and np.abs(lie.get_su2_irrep(j2, U @ V) - Dm @ lie.get_su2_irrep(j2, V)).max() < 1e-5
+                    if j2 == 1:
+                        ok = ok and np.abs(Dm - U).max() < 1e-5
+                except Exception as ex:
+                    if not from_repo(ex):
+                        raise
+                    ok = False
+                cnt += 1
+                if not ok and bad is None:
+                    bad = dict(j2=j2, alpha=float(a), beta=float(b), gamma=float(gg), what='D(matrix) vs D(angles) / homomorphism on structured rotations')
     out = [ob(f'{PROP}.get_su2_irrep.homomorphism_on_matrices[j2<=10]', 'pass' if bad is None else 'refuted', tier='B', backend='native', functions=['numqi.group._lie:get_su2_irrep', 'numqi.group._lie:su2_to_angle'],
               evaluations=cnt, distinct_nontrivial=cnt, witness=bad, native=dict(confirmed=bad is not None))]
     bad = None; cnt = 0
